@@ -158,6 +158,25 @@ CLAIMED.update({
         design="3/C15"),
 })
 
+CLAIMED.update({
+    "C14": dict(
+        engine="mir2smt",
+        technique="symbolic execution of the rustc MIR of PyCodeGenerator::push_lnotab and the stack counters (stack_inc, stack_dec, stack_inc_n, stack_dec_n) with a heap-lite "
+                  "model (lazy structs, Vec<u8> of concrete length with symbolic bytes) on an arbitrary current unit; z3 decides the decoded line table and the counter invariant for one "
+                  "step from any valid state; counterexamples are replayed natively on a real PyCodeGenerator",
+        category="other",
+        text="Kernel-level partial claim: (1) line table - for every prev_lineno, prev_lasti <= lasti, statement line and every existing table of 0 or 2 (thorough: 4) bytes, with "
+             "address delta <= 600 and line delta <= 400, the bytes push_lnotab appends decode under CPython's <= 3.9 rule (u8 address increments, signed line increments) to exactly "
+             "(lasti - prev_lasti, line - prev_lineno), the table stays a sequence of pairs, earlier entries are untouched, prev_lineno/prev_lasti end at (line, lasti), nothing panics; "
+             "(2) declared stack size - from any state with stacksize >= stack_len, after any of the four counter operations stack_len is exact, stacksize = max(old, stack_len) and "
+             "never falls below stack_len, and an impossible decrement aborts instead of wrapping; one step from an arbitrary state covers emission histories of any length for these "
+             "counters. That each emit_* function calls the counters in a way that dominates the interpreter's stack effect, jump targets, constant/name/local index ranges, the "
+             "3.10+/3.11 line tables, exception tables and the other sites that edit co_lnotab (block exit) are not decided.",
+        note="Trusts rustc's MIR dump, engines/mir2smt.py with its heap-lite models (PyCodeGenStack::last/last_mut return the current unit, Expr::ln_begin is an arbitrary Option<u32>, "
+             "crash() aborts, diagnostics construction opaque), z3. Magnitudes: stacksize and n below 2^31.",
+        design="3/C14"),
+})
+
 NOT_APPLICABLE = {}
 
 
